@@ -818,6 +818,33 @@ func (in *Interp) evalCompare(st *State, op token.Token, x, y *Sym) (Abs, bool) 
 		}
 		return Abs{K: False}, true
 	}
+	// len(S) against a constant where S is known to hold at least m elements on this path (the
+	// result of appending single elements, a full slice of an array literal): decides the comparisons
+	// that m settles, e.g. `len(append(list, x)) > 0` — prunes the infeasible "list still empty" branch.
+	if ay.K == ConstV && ay.C.Kind() == constant.Int && x.Kind == KCall && x.Call != nil && x.Call.Builtin == "len" && len(x.Call.Args) == 1 {
+		if m := st.minLen(x.Call.Args[0], 0); m > 0 {
+			if cv, exact := constant.Int64Val(ay.C); exact {
+				switch op {
+				case token.GTR, token.NEQ:
+					if m > cv {
+						return b(true)
+					}
+				case token.GEQ:
+					if m >= cv {
+						return b(true)
+					}
+				case token.EQL, token.LEQ:
+					if m > cv {
+						return b(false)
+					}
+				case token.LSS:
+					if m >= cv {
+						return b(false)
+					}
+				}
+			}
+		}
+	}
 	switch op {
 	case token.EQL, token.NEQ:
 		eq, known := false, false
@@ -1316,4 +1343,31 @@ func closureMayWrite(fn *ssa.Function, k int) bool {
 		}
 	}
 	return false
+}
+
+
+// minLen: a lower bound for the length of slice value s on this path (0 when nothing is known).
+func (st *State) minLen(s *Sym, d int) int64 {
+	s = s.Strip(false)
+	if s == nil || d > 8 {
+		return 0
+	}
+	switch s.Kind {
+	case KCall:
+		if s.Call != nil && s.Call.Builtin == "append" && len(s.Call.Args) == 2 {
+			return st.minLen(s.Call.Args[0], d+1) + st.minLen(s.Call.Args[1], d+1)
+		}
+	case KSlice:
+		// the full slice of an array literal (how go/ssa packs variadic arguments)
+		if sl, ok := s.V.(*ssa.Slice); ok && sl.Low == nil && sl.High == nil {
+			if s.X != nil && s.X.Kind == KAlloc {
+				if p, ok := s.X.Typ.Underlying().(*types.Pointer); ok {
+					if a, ok := p.Elem().Underlying().(*types.Array); ok {
+						return a.Len()
+					}
+				}
+			}
+		}
+	}
+	return 0
 }
